@@ -228,6 +228,7 @@ def plan(tier):
         shards.append({"kind": "trees", "depth": "collisions", "part": p, "parts": 8})
     for p in range(16):
         shards.append({"kind": "hist", "part": p, "parts": 16})
+    shards.append({"kind": "from-types"})
     return shards
 
 
@@ -260,6 +261,11 @@ def cases(shard, tier):
         for i, t in enumerate(trees(shard["depth"])):
             if i % shard["parts"] == shard["part"]:
                 yield {"kind": "tree", "tree": t, "tier": tier}
+    elif kind == "from-types":
+        for g in range(4):
+            yield {"kind": "from-types", "what": "union", "group": g}
+        for elem in (["uint", 8, "s"], ["varr", ["uint", 8, "s"], 1], ["varr", ["uint", 32, "s"], 2], ["struct", [["varr", ["uint", 64, "s"], 1]]]):
+            yield {"kind": "from-types", "what": "offsets", "elem": elem}
     elif kind == "hist":
         fam = list(trees(0)) + list(trees(1))
         # plus a slice of depth 2: every 97th tree
@@ -450,7 +456,65 @@ def check_hist(case, R):
         R.outcome("history")
 
 
+COLLIDING_BASES = [[[0, 32, 128], [0, 64, 128]], [[0, 64, 128], [0, 32, 128], [0, 32, 64, 128]], [[8, 40], [8, 40, 72], [8, 72], [8, 40]], [[0, 8, 16], [0, 16]]]
+
+
+def check_from_types(case, R):
+    """Bit length sets that the TYPE MODEL hands out or consumes are bit length sets too: exact for every query."""
+    from ..gen import types as T
+    from ..ref import layout as L
+
+    if case["what"] == "union":
+        g = T.COLLIDERS[case["group"]]
+        for a, b in itertools.permutations(g, 2):
+            for desc in (["union", [a, b]], ["struct", [a, b]], ["union", [["uint", 8, "s"], b, a]]):
+                t = T.build(desc)
+                E = L.lengths(desc)
+                bls = t.bit_length_set
+                R.case(["from-types", desc], nontrivial=True, sample=False)
+                got = {"min": bls.min, "max": bls.max, "set": sorted(bls), "len": len(bls)}
+                exp = {"min": min(E), "max": max(E), "set": sorted(E), "len": len(E)}
+                for d in (3, 5, 7, 8, 24, 32, 40, 64):
+                    got["%%%d" % d] = sorted(bls % d)
+                    exp["%%%d" % d] = sorted({x % d for x in E})
+                    got["al%d" % d] = bls.is_aligned_at(d)
+                    exp["al%d" % d] = all(x % d == 0 for x in E)
+                if got != exp:
+                    bad = sorted(k for k in exp if got[k] != exp[k])
+                    _viol(R, "type-derived-set-" + desc[0], "a set built by the type model from the public operations answers exactly like the mathematical set", case, {k: got[k] for k in bad[:4]}, {k: exp[k] for k in bad[:4]})
+                    return
+        R.outcome("from-types")
+        return
+    # offsets computed for several user-built base sets, one after the other, on ONE type object
+    elem = case["elem"]
+    arr = T.build(["struct", [["farr", elem, 3]]]).fields[0].data_type
+    st = T.build(["struct", [elem, ["uint", 8, "s"], elem]])
+    Ee = L.lengths(elem)
+    for bases in COLLIDING_BASES:
+        for base in bases:
+            R.case(["from-types-offsets", elem, base], nontrivial=True, sample=False)
+            cur = set(base)
+            exp_elems = []
+            for _i in range(3):
+                exp_elems.append(sorted(cur))
+                cur = {x + y for x in cur for y in Ee}
+            got_elems = [sorted(o) for _i, o in arr.enumerate_elements_with_offsets(BitLengthSet(base))]
+            cur = set(base)
+            exp_fields = [sorted(cur)]
+            cur = {x + y for x in cur for y in Ee}
+            exp_fields.append(sorted(cur))
+            cur = {x + 8 for x in cur}
+            exp_fields.append(sorted(cur))
+            got_fields = [sorted(o) for _f, o in st.iterate_fields_with_offsets(BitLengthSet(base))]
+            if got_elems != exp_elems or got_fields != exp_fields:
+                _viol(R, "type-derived-offsets", "offset sets computed from a user-built base set are exactly base (+) lengths of what precedes, whatever bases were asked before on the same object", {**case, "base": base}, [got_elems, got_fields], [exp_elems, exp_fields])
+                return
+    R.outcome("from-types")
+
+
 def check_case(case, R):
+    if case["kind"] == "from-types":
+        return check_from_types(case, R)
     k = case["kind"]
     if k == "lemma":
         check_lemma(case, R)
@@ -470,7 +534,7 @@ def worker_init():
 
 
 def finish(tier, M):
-    if M.hist.get("lemma-k>=d", 0) == 0 or M.counters.get("expansions", 0) == 0 or M.hist.get("history", 0) == 0:
+    if M.hist.get("lemma-k>=d", 0) == 0 or M.counters.get("expansions", 0) == 0 or M.hist.get("history", 0) == 0 or M.hist.get("from-types", 0) == 0:
         raise engine.Vacuous("a sub-space was not visited: %r" % dict(M.hist))
     return {
         "bounds": {
